@@ -50,9 +50,11 @@ pub(crate) struct Table<P, T>(UnsafeCell<Vec<Node<P, T>>>, AtomicUsize);
 // - Sending a mutable reference of PrefixMap over thread boundaries (i.e., TrieView is Send) is
 //   safe, because we ensure that the existence of a TrieViewMut on a sub-tree implies the absence
 //   of any other TrieView or TrieViewMut that overlaps with that sub-tree.
-// The same argument holds for Sync.
+// The same argument holds for Sync. However, a shared reference to the table is enough to get
+// mutable access to (and thus move out) values, e.g., from a `TrieViewMut` or an `IterMut`.
+// Therefore, sharing the table between threads also requires `T: Send` (like `RwLock`).
 unsafe impl<P: Send, T: Send> Send for Table<P, T> {}
-unsafe impl<P: Sync, T: Sync> Sync for Table<P, T> {}
+unsafe impl<P: Sync, T: Send + Sync> Sync for Table<P, T> {}
 
 impl<P, T> AsRef<Vec<Node<P, T>>> for Table<P, T> {
     fn as_ref(&self) -> &Vec<Node<P, T>> {
